@@ -124,7 +124,7 @@ def load(with_clvmr=False, repo=REPO):
         roots.append(clvmr_src(repo))
     if with_clvmr:
         cp = clvmr_dump(repo)
-        cl = mirparse.parse_dump(open(cp).read())
+        cl = mirparse.parse_dump(open(cp).read(), crate='clvmr')
         for k, v in cl.items():
             funcs.setdefault(k, v)
     return funcs, key, roots
